@@ -3,13 +3,30 @@ evaluator of NumPy basic + one-array indexing (used only to choose valid chains 
 the truth is NumPy in impl.py and the Coq model), unit table."""
 from fractions import Fraction as F
 
-# unit -> (factor to the base unit, offset), exact rationals, from openmdao/utils/unit_library.ini
+# unit -> (factor to the SI base combination, offset), exact rationals, written down independently of
+# openmdao.utils.units from the definitions in unit_library.ini (ft = 0.3048 m, inch = 0.0254 m,
+# min = 60 s, h = 3600 s, degC = K + 273.15, degF = degR + 459.67 with degR = 5/9 K)
+_FT = F(381, 1250)
+_IN = F(127, 5000)
 UNITS = {
-    'm': (F(1), F(0)), 'km': (F(1000), F(0)), 'cm': (F(1, 100), F(0)),
+    'm': (F(1), F(0)), 'km': (F(1000), F(0)), 'cm': (F(1, 100), F(0)), 'ft': (_FT, F(0)), 'inch': (_IN, F(0)),
     's': (F(1), F(0)), 'min': (F(60), F(0)), 'h': (F(3600), F(0)),
     'degK': (F(1), F(0)), 'degC': (F(1), F(27315, 100)), 'degF': (F(5, 9), F(45967, 100)),
+    # reciprocal forms
+    '1/s': (F(1), F(0)), '1/min': (F(1, 60), F(0)), '1/h': (F(1, 3600), F(0)),
+    '1/m': (F(1), F(0)), '1/km': (F(1, 1000), F(0)), '1/ft': (1 / _FT, F(0)),
+    # quotients
+    'm/s': (F(1), F(0)), 'm/min': (F(1, 60), F(0)), 'km/h': (F(1000, 3600), F(0)), 'ft/s': (_FT, F(0)),
+    'km/min': (F(1000, 60), F(0)),
+    # powers and products
+    'm**2': (F(1), F(0)), 'ft**2': (_FT ** 2, F(0)), 'cm**2': (F(1, 10000), F(0)), 'inch**2': (_IN ** 2, F(0)),
+    'm*s': (F(1), F(0)), 'km*min': (F(60000), F(0)), 'ft*h': (_FT * 3600, F(0)),
+    'm/s**2': (F(1), F(0)), 'km/min**2': (F(1000, 3600), F(0)), 'ft/s**2': (_FT, F(0)),
 }
-FAMILIES = [['m', 'km', 'cm'], ['s', 'min', 'h'], ['degK', 'degC', 'degF']]
+FAMILIES = [['m', 'km', 'cm', 'ft', 'inch'], ['s', 'min', 'h'], ['degK', 'degC', 'degF'],
+            ['1/s', '1/min', '1/h'], ['1/m', '1/km', '1/ft'], ['m/s', 'm/min', 'km/h', 'ft/s', 'km/min'],
+            ['m**2', 'ft**2', 'cm**2', 'inch**2'], ['m*s', 'km*min', 'ft*h'],
+            ['m/s**2', 'km/min**2', 'ft/s**2']]
 
 
 def conversion(u_src, u_tgt):
